@@ -66,6 +66,9 @@ def draw_sim_cfg(rng, est=600, stall_ok=False, line_ok=True):
     # late timer wake-ups (derived from the run's seed without consuming the PRNG): timers due
     # within the window of the earliest one fire together, at the latest of their deadlines
     cfg["coalesce_ns"] = (0, 0, 0, 5000, 100000, 500000)[splitmix64(cfg["seed"]) % 6]
+    if s != "uniform":
+        # extra switch probability at yield points inside scripted user code
+        cfg["user_q"] = (0.0, 0.0, 0.2, 0.5)[splitmix64(cfg["seed"] ^ 0x2545F491) % 4]
     return cfg
 
 
